@@ -568,6 +568,13 @@ func (r *Resolver) groupLookup(ctx context.Context, rs *resolveState, req *dns.M
 	}
 	key := strconv.FormatUint(cache.Key(q), 10) + "|" + servers.Zone +
 		"|" + string(cd) + "|" + strconv.FormatUint(servers.Fingerprint(), 10)
+	// A query that carries a client subnet asks for an answer tailored to
+	// that subnet: two clients from different networks must not share one
+	// upstream exchange, or the second receives — and has filed under its
+	// own audience — what the authority chose for the first.
+	if subnet := forwardedSubnet(req); subnet != nil {
+		key += "|" + strconv.Itoa(int(subnet.Family)) + "/" + strconv.Itoa(int(subnet.SourceNetmask)) + "/" + subnet.Address.String()
+	}
 
 	// The leader closure can outlive this caller: TimedDoChan returns on this
 	// caller's timeout/cancel while the shared generation remains registered
